@@ -22,7 +22,11 @@ for p in props:
         engine='lean-proof+correspondence',
         level_claimed=dict(category='proof', text=c['text'], design_ref='DESIGN.md section ' + engine.PROPS[pid]['design']),
         level_note=c['note'],
-        technique='Lean 4 theorems about a hand-written model of the macro + checked correspondence (hook vs model, rustc vs spec)',
+        technique='Lean 4 theorems about a hand-written model of the macro + checked correspondence (hook vs model token by token, '
+                  'rustc vs the Lean specification' + (', the model type checker vs rustc' if pid in ('C02', 'C17') else '') + ')' +
+                  ('; translator: the finite tables and inventories of the current source (skip groups, trait names and paths, '
+                   'repr table, error messages, template vocabulary, unsafe / panic / cfg sites) are re-extracted on every run and '
+                   'kernel-checked against the model' if engine.PROPS[pid].get('tables') else ''),
     ))
 m = dict(
     version=1,
